@@ -35,6 +35,7 @@ type World struct {
 	entryC    map[*ssa.Function][]entryFact
 	EntryUsed map[string]int
 	lenRelC   map[string][]lenRel
+	intLenC map[string][]int
 	condC     map[string][]condFact
 }
 
